@@ -3,7 +3,7 @@ use cosmwasm_std::{DepsMut, Env, MessageInfo, Response, StdError};
 use white_whale_std::pool_network::incentive::{ClosedPosition, OpenPosition};
 
 use crate::queries::get_rewards;
-use crate::state::ADDRESS_WEIGHT_HISTORY;
+use crate::state::{ADDRESS_WEIGHT_HISTORY, GLOBAL_WEIGHT_SNAPSHOT};
 use crate::{
     error::ContractError,
     helpers,
@@ -72,6 +72,18 @@ pub fn close_position(
     // than is taken off the user, so the global weight remains the sum of the address weights
     let weight_to_reduce = weight_to_reduce.min(user_weight);
 
+    // the weights that count for the current epoch are the ones recorded up to it, and this position still counts
+    // for it: if the epoch's global weight snapshot has not been taken yet, take it now, before the position's
+    // weight leaves the global weight
+    let current_epoch = helpers::get_current_epoch(deps.as_ref())?;
+    if GLOBAL_WEIGHT_SNAPSHOT
+        .may_load(deps.storage, current_epoch)?
+        .is_none()
+    {
+        let current_global_weight = GLOBAL_WEIGHT.may_load(deps.storage)?.unwrap_or_default();
+        GLOBAL_WEIGHT_SNAPSHOT.save(deps.storage, current_epoch, &current_global_weight)?;
+    }
+
     // reduce the global weight
     GLOBAL_WEIGHT.update::<_, StdError>(deps.storage, |global_weight| {
         Ok(global_weight.saturating_sub(weight_to_reduce))
@@ -80,8 +92,6 @@ pub fn close_position(
     // reduce the weight for the user
     user_weight = user_weight.saturating_sub(weight_to_reduce);
     ADDRESS_WEIGHT.save(deps.storage, info.sender.clone(), &user_weight)?;
-
-    let current_epoch = helpers::get_current_epoch(deps.as_ref())?;
 
     // store new user weight in history for the next epoch
     ADDRESS_WEIGHT_HISTORY.update::<_, StdError>(
